@@ -177,7 +177,9 @@ def c17(ck, F, tier):
     guarded(ck, rw.cover_walk, F, "COVER-walk", "stringify::rename_sheet_in_node")
     import rules_pcfg as rp
     guarded(ck, rp.pcfg, F)
-
+    import rules_names as rn_
+    ck.rule("NAME-CASE", "stored defined names are compared case-insensitively", floor=5)
+    guarded(ck, rn_.defined_name_case, F)
 
 def c29(ck, F, tier):
     import rules_attr as ra
@@ -552,6 +554,7 @@ def c30(ck, F, tier):
     ck.rule("COVER-style", "every Style field is interned and read back from its own slot", floor=20, exhaustive=True)
     guarded(ck, ra.cover_style, F)
     guarded(ck, ra.intern_exact, F)
+    guarded(ck, ra.intern_returns, F)
 
 
 def c32(ck, F, tier):
@@ -571,7 +574,9 @@ def c32(ck, F, tier):
     guarded(ck, rp.store_en, F)
     guarded(ck, rw.cover_walk, F, "COVER-walk", "stringify::rename_defined_name_in_node")
     guarded(ck, rw.names_rules, F)
-
+    import rules_names as rn_
+    ck.rule("NAME-CASE", "stored defined names are compared case-insensitively", floor=5)
+    guarded(ck, rn_.defined_name_case, F)
 
 def c18(ck, F, tier):
     import rules_attr as ra
